@@ -249,7 +249,7 @@ EXTRA = {
  "C17": " pidExists probes a process group (negative pid) through its leader instead of answering from the sign.",
  "C18": " BuildFrameworkInfo announces the failover timeout whenever one is configured (mesos-go re-subscribes under the stored framework id only then). the Mesos UPDATE handler forwards every status update (also about tasks not in the roster) to the task manager.",
  "C19": " ClearEventWriters calls Close on every registered writer before the registry is cleared (map range with visited-set invariant; clear() modelled).",
- "C20": " YamlSource.Exists reports an error only if the store cannot be read or an array index is malformed; a path that runs into a plain value is 'absent'.",
+ "C20": " YamlSource.Exists reports an error only if the store cannot be read or an array index is malformed; a path that runs into a plain value is 'absent'. The HTTP resolve route hands the resolver the URL remainder minus the '/resolve' suffix (strings.TrimSuffix as a trusted spec function).",
  "C01": " TeardownEnvironment refuses an environment it finds in DONE whatever `force` says (nothing is sent, no hook runs).",
  "C07": " NewRunNumber's file backend parses exactly the content of the counter file (a blank or damaged file is an error, not a restart from 1).",
  "C10": " StopActivityTransition.do never writes the run number.",
